@@ -133,6 +133,16 @@ func runC13(r *engine.Run) {
 				}
 			}
 		}
+		// the same through the accessor (bands that compute RX1 have no table): every result
+		// for a defined uplink data-rate and an offset 0..7 is a defined data-rate
+		for dr := range s.DataRates {
+			for off := 0; off <= 7; off++ {
+				c.Eval()
+				if v, err := b.GetRX1DataRateIndex(dr, off); err == nil && !defined(v) {
+					c.Fail(fmt.Sprintf("closure/%s/rx1-result-accessor", reg.Name), fmt.Sprintf("%v: GetRX1DataRateIndex(%d, %d) = %d is not a defined data-rate", cfg, dr, off, v), nil)
+				}
+			}
+		}
 		if !defined(b.GetDefaults().RX2DataRate) {
 			c.Fail(fmt.Sprintf("closure/%s/rx2-default", reg.Name), fmt.Sprintf("%v: RX2 default DR%d undefined", cfg, b.GetDefaults().RX2DataRate), nil)
 		}
@@ -300,6 +310,18 @@ func runC13(r *engine.Run) {
 		def := b.GetDefaults()
 		if def.RX2Frequency != reg.RX2Freq || def.RX2DataRate != reg.RX2DR {
 			c.Fail(fmt.Sprintf("rp/%s/rx2-defaults", reg.Name), fmt.Sprintf("%v: RX2 %d Hz DR%d, Regional Parameters %d Hz DR%d", cfg, def.RX2Frequency, def.RX2DataRate, reg.RX2Freq, reg.RX2DR), nil)
+		}
+		// number of TX-power steps: the Regional Parameters' count (US915 / AU915: 11 steps up
+		// to RP002-1.0.0, 15 since RP002-1.0.1; either revision's count is a published value)
+		steps := map[string][]int{"EU868": {8}, "US915": {11, 15}, "AU915": {11, 15}, "CN779": {6}, "EU433": {6}, "CN470": {8}, "AS923": {8}, "KR920": {8}, "IN865": {11}, "RU864": {8}, "ISM2400": {8}}[reg.Name]
+		okSteps := len(steps) == 0
+		for _, n := range steps {
+			if len(s.TXPowerOffsets) == n {
+				okSteps = true
+			}
+		}
+		if !okSteps {
+			c.Fail(fmt.Sprintf("rp/%s/tx-power-step-count", reg.Name), fmt.Sprintf("%v: %d TX power steps, Regional Parameters %v", cfg, len(s.TXPowerOffsets), steps), nil)
 		}
 		for k, off := range s.TXPowerOffsets {
 			c.Eval()
